@@ -210,6 +210,19 @@ func (t *PageTree) traversePageNode(node core.Dict, parent core.Dict) error {
 			return fmt.Errorf("Pages node missing /Kids entry")
 		}
 
+		// A node written directly inside a /Kids array has no object number, so the
+		// visited set below never sees it; but the way back into the tree then leads
+		// through an indirect /Kids array. 2 0 obj << /Type /Pages /Kids 3 0 R >> with
+		// 3 0 obj [ << /Type /Pages /Kids 3 0 R >> ] (300 bytes) recursed until the
+		// stack was exhausted. An indirect /Kids array belongs to one node, like a node
+		// to one parent.
+		if ref, ok := kidsObj.(core.IndirectRef); ok {
+			if t.visited[ref.Number] {
+				return fmt.Errorf("/Kids array %d is reachable more than once", ref.Number)
+			}
+			t.visited[ref.Number] = true
+		}
+
 		// Resolve Kids if it's a reference
 		kidsResolved, err := t.resolver.Resolve(kidsObj)
 		if err != nil {
